@@ -129,17 +129,29 @@ package transmit
 //@   modifies all(timeExtN), all(timeExtLast), all(rateN), all(rateLast), all(downN)
 //@ assume transmit.buildRequestURL
 //@ assume transmit.httpError.Timeout
-//@ fragment transmit.(*DirectTransmission).sendBatch loop 1 body props C26 havoc noinv
+//@ fragment transmit.(*DirectTransmission).sendBatch loop 1 body props C26,C16 havoc noinv
 //@   arith math
 //@   assert only none
-//@   requires d != nil && d.httpClient != nil
+//@   requires d != nil && d.httpClient != nil && len(wholeBatch) > 0 && wholeBatch[0] != nil
 //@   let c = d.httpClient
 //@   ensures[at-most-two-attempts-per-batch] doN(c) <= old(doN(c)) + 2
+//@   ensures[the-destination-is-read-from-the-first-event-when-the-batch-is-sent] apiHost == old(wholeBatch[0].APIHost) && apiKey == old(wholeBatch[0].APIKey) && dataset == old(wholeBatch[0].Dataset)
 //@   loop 1 invariant[packing-sends-nothing] doN(c) == old(doN(c)) && toInt(d.httpClient) == toInt(c)
 //@   loop 2 invariant[one-request-per-attempt] doN(c) <= old(doN(c)) + try && try <= 2 && toInt(d.httpClient) == toInt(c)
 //@   loop 3 invariant[headers-send-nothing] doN(c) <= old(doN(c)) + try && try < 2 && toInt(d.httpClient) == toInt(c)
 //@   loop 4 invariant[responses-send-nothing] doN(c) <= old(doN(c)) + 2
 //@   loop 5 invariant[errors-send-nothing] doN(c) <= old(doN(c)) + 2
+// C16 / C26: the destination of a sub-batch is read from its first event when it is sent, and every request made
+// for it goes to that URL with that key (the standard headers are set after the configured extra headers, so an
+// extra header named X-Honeycomb-Team cannot replace the key)
+//@ fragment transmit.(*DirectTransmission).sendBatch loop 3 body props C26,C16 havoc noinv
+//@   arith math
+//@   assert only none
+//@   requires d != nil && d.httpClient != nil
+//@   let c = d.httpClient
+//@   ensures[each-request-is-addressed-to-the-batch-s-destination] doN(c) == old(doN(c)) + 1 ==> reqURL(doReq(c)) == apiURL && hdr(asPtr(doReq(c), *http.Request).Header, "X-Honeycomb-Team") == apiKey && hdr(asPtr(doReq(c), *http.Request).Header, "Content-Type") == "application/msgpack"
+//@   ensures[one-request-per-attempt] doN(c) <= old(doN(c)) + 1
+//@   loop 1 invariant[headers-send-nothing] doN(c) == old(doN(c)) && toInt(d.httpClient) == toInt(c) && req != nil && reqURL(req) == apiURL
 
 // the whole of sendBatch: the outcomes add up over all sub-batches
 // parsing a Retry-After value and waiting it out touch nothing the transmission can see
